@@ -690,6 +690,7 @@ impl JsValue {
     /// Fast path for the binary `+` operator (numeric only).
     #[inline]
     #[allow(clippy::float_cmp)]
+    #[cfg_attr(kani, kani::ensures(|r| verif_kani::post_arith(verif_kani::Op::Add, self, other, r)))]
     pub(crate) fn add_fast(&self, other: &Self) -> Option<Self> {
         if let (Some(x), Some(y)) = (self.0.as_integer32(), other.0.as_integer32()) {
             return Some(
@@ -704,6 +705,7 @@ impl JsValue {
 
     /// Fast path for the binary `-` operator.
     #[inline]
+    #[cfg_attr(kani, kani::ensures(|r| verif_kani::post_arith(verif_kani::Op::Sub, self, other, r)))]
     pub(crate) fn sub_fast(&self, other: &Self) -> Option<Self> {
         if let (Some(x), Some(y)) = (self.0.as_integer32(), other.0.as_integer32()) {
             return Some(
@@ -749,6 +751,7 @@ impl JsValue {
 
     /// Fast path for the binary `%` operator.
     #[inline]
+    #[cfg_attr(kani, kani::ensures(|r| verif_kani::post_rem(self, other, r)))]
     pub(crate) fn rem_fast(&self, other: &Self) -> Option<Self> {
         if let (Some(x), Some(y)) = (self.0.as_integer32(), other.0.as_integer32()) {
             if y == 0 {
@@ -787,6 +790,7 @@ impl JsValue {
 
     /// Fast path for the binary `&` operator (i32 only).
     #[inline]
+    #[cfg_attr(kani, kani::ensures(|r| verif_kani::post_bit(verif_kani::BitOp::And, self, other, r)))]
     pub(crate) fn bitand_fast(&self, other: &Self) -> Option<Self> {
         let x = self.0.as_integer32()?;
         let y = other.0.as_integer32()?;
@@ -795,6 +799,7 @@ impl JsValue {
 
     /// Fast path for the binary `|` operator (i32 only).
     #[inline]
+    #[cfg_attr(kani, kani::ensures(|r| verif_kani::post_bit(verif_kani::BitOp::Or, self, other, r)))]
     pub(crate) fn bitor_fast(&self, other: &Self) -> Option<Self> {
         let x = self.0.as_integer32()?;
         let y = other.0.as_integer32()?;
@@ -803,6 +808,7 @@ impl JsValue {
 
     /// Fast path for the binary `^` operator (i32 only).
     #[inline]
+    #[cfg_attr(kani, kani::ensures(|r| verif_kani::post_bit(verif_kani::BitOp::Xor, self, other, r)))]
     pub(crate) fn bitxor_fast(&self, other: &Self) -> Option<Self> {
         let x = self.0.as_integer32()?;
         let y = other.0.as_integer32()?;
@@ -811,6 +817,7 @@ impl JsValue {
 
     /// Fast path for the binary `<<` operator (i32 only).
     #[inline]
+    #[cfg_attr(kani, kani::ensures(|r| verif_kani::post_bit(verif_kani::BitOp::Shl, self, other, r)))]
     pub(crate) fn shl_fast(&self, other: &Self) -> Option<Self> {
         let x = self.0.as_integer32()?;
         let y = other.0.as_integer32()?;
@@ -819,6 +826,7 @@ impl JsValue {
 
     /// Fast path for the binary `>>` operator (i32 only).
     #[inline]
+    #[cfg_attr(kani, kani::ensures(|r| verif_kani::post_bit(verif_kani::BitOp::Shr, self, other, r)))]
     pub(crate) fn shr_fast(&self, other: &Self) -> Option<Self> {
         let x = self.0.as_integer32()?;
         let y = other.0.as_integer32()?;
@@ -827,6 +835,7 @@ impl JsValue {
 
     /// Fast path for the binary `>>>` operator (i32 only).
     #[inline]
+    #[cfg_attr(kani, kani::ensures(|r| verif_kani::post_bit(verif_kani::BitOp::Ushr, self, other, r)))]
     pub(crate) fn ushr_fast(&self, other: &Self) -> Option<Self> {
         let x = self.0.as_integer32()?;
         let y = other.0.as_integer32()?;
@@ -835,6 +844,7 @@ impl JsValue {
 
     /// Fast path for the `<` operator.
     #[inline]
+    #[cfg_attr(kani, kani::ensures(|r| verif_kani::post_cmp(verif_kani::Cmp::Lt, self, other, r)))]
     pub(crate) fn lt_fast(&self, other: &Self) -> Option<bool> {
         if let (Some(x), Some(y)) = (self.0.as_integer32(), other.0.as_integer32()) {
             return Some(x < y);
@@ -846,6 +856,7 @@ impl JsValue {
 
     /// Fast path for the `<=` operator.
     #[inline]
+    #[cfg_attr(kani, kani::ensures(|r| verif_kani::post_cmp(verif_kani::Cmp::Le, self, other, r)))]
     pub(crate) fn le_fast(&self, other: &Self) -> Option<bool> {
         if let (Some(x), Some(y)) = (self.0.as_integer32(), other.0.as_integer32()) {
             return Some(x <= y);
@@ -857,6 +868,7 @@ impl JsValue {
 
     /// Fast path for the `>` operator.
     #[inline]
+    #[cfg_attr(kani, kani::ensures(|r| verif_kani::post_cmp(verif_kani::Cmp::Gt, self, other, r)))]
     pub(crate) fn gt_fast(&self, other: &Self) -> Option<bool> {
         if let (Some(x), Some(y)) = (self.0.as_integer32(), other.0.as_integer32()) {
             return Some(x > y);
@@ -868,6 +880,7 @@ impl JsValue {
 
     /// Fast path for the `>=` operator.
     #[inline]
+    #[cfg_attr(kani, kani::ensures(|r| verif_kani::post_cmp(verif_kani::Cmp::Ge, self, other, r)))]
     pub(crate) fn ge_fast(&self, other: &Self) -> Option<bool> {
         if let (Some(x), Some(y)) = (self.0.as_integer32(), other.0.as_integer32()) {
             return Some(x >= y);
@@ -880,6 +893,7 @@ impl JsValue {
     /// Fast path for the `==` operator (numeric only).
     #[inline]
     #[allow(clippy::float_cmp)]
+    #[cfg_attr(kani, kani::ensures(|r| verif_kani::post_eq(false, self, other, r)))]
     pub(crate) fn equals_fast(&self, other: &Self) -> Option<Self> {
         if let (Some(x), Some(y)) = (self.0.as_integer32(), other.0.as_integer32()) {
             return Some(Self::new(x == y));
@@ -892,6 +906,7 @@ impl JsValue {
     /// Fast path for the `!=` operator (numeric only).
     #[inline]
     #[allow(clippy::float_cmp)]
+    #[cfg_attr(kani, kani::ensures(|r| verif_kani::post_eq(true, self, other, r)))]
     pub(crate) fn not_equals_fast(&self, other: &Self) -> Option<Self> {
         if let (Some(x), Some(y)) = (self.0.as_integer32(), other.0.as_integer32()) {
             return Some(Self::new(x != y));
@@ -925,3 +940,7 @@ impl From<bool> for AbstractRelation {
         if value { Self::True } else { Self::False }
     }
 }
+
+#[cfg(kani)]
+#[path = "/verif/kani/engine/operations.rs"]
+mod verif_kani;
